@@ -235,68 +235,6 @@ theorem replacement_gets_next_queued_job (p : WP) (e : Env) (naid : Nat) (j : Jo
   simp only [hcast]
   exact ⟨trivial, by first | rfl | simp [currInsert], trivial, hgs⟩
 
-/-! ## The TTL across the wire (`JobOptions: BytesConvertable`, finding F14, fixed) -/
-
-open Factory in
-/-- (TTL, remote factory) a job sent to a factory on another node carries its options as 16 bytes; the TTL field is
-nanoseconds as `u64` with 0 meaning "no TTL". For EVERY TTL: a job has a TTL after the wire iff it had one before; a TTL
-the field can hold (`0 < t ≤ u64::MAX` ns) arrives unchanged; a TTL of zero arrives as 1 ns (it still expires at once:
-`TtlTimer::from_submit_time` compares with the time since submission); a TTL beyond the range arrives as `u64::MAX` ns
-(584 years). Before the fix zero arrived as "no TTL" — the job could never expire at the remote factory — and `2^64 + 1`
-ns arrived as 1 ns (`jo 0`, `jo 18446744073709551617` in `corpus/C13/e-pure-f14_ttl_on_the_wire.ops`). -/
-theorem ttl_survives_the_wire (ttl : Option Nat) :
-    (ttlFromWire (ttlToWire ttl) = none ↔ ttl = none) ∧
-    (∀ t, ttl = some t → 0 < t → t ≤ U64_MAX → ttlFromWire (ttlToWire ttl) = some t) ∧
-    (ttl = some 0 → ttlFromWire (ttlToWire ttl) = some 1) ∧
-    (∀ t, ttl = some t → U64_MAX < t → ttlFromWire (ttlToWire ttl) = some U64_MAX) := by
-  cases ttl with
-  | none =>
-    refine ⟨⟨fun _ => rfl, fun _ => rfl⟩, ?_, ?_, ?_⟩
-    · intro t h; cases h
-    · intro h; cases h
-    · intro t h; cases h
-  | some t =>
-    have hpos : 0 < max 1 (min t U64_MAX) := by omega
-    have hu : (0 : Nat) < U64_MAX := by unfold U64_MAX; omega
-    refine ⟨⟨fun h => ?_, fun h => by cases h⟩, ?_, ?_, ?_⟩
-    · unfold ttlFromWire ttlToWire at h
-      simp only [hpos, if_true] at h
-      cases h
-    · intro t' h h0 h1
-      cases h
-      unfold ttlFromWire ttlToWire
-      simp only [hpos, if_true]
-      congr 1
-      omega
-    · intro h
-      cases h
-      unfold ttlFromWire ttlToWire
-      simp
-    · intro t' h h1
-      cases h
-      unfold ttlFromWire ttlToWire
-      simp only [hpos, if_true]
-      congr 1
-      omega
-
-open Factory in
-/-- what `from_bytes` makes of an arbitrary byte string: a TTL only out of a well-formed 16-byte string whose TTL field is
-not zero — nothing else can conjure up or drop a TTL -/
-theorem ttl_of_bytes_spec (bs : List Nat) :
-    (bs.length ≠ 16 → ttlOfBytes bs = none) ∧
-    (∀ t, ttlOfBytes bs = some t → bs.length = 16 ∧ 0 < t) := by
-  unfold ttlOfBytes ttlFromWire
-  refine ⟨fun h => by simp [h], ?_⟩
-  intro t h
-  by_cases hl : bs.length = 16
-  · simp only [hl, bne_self_eq_false, Bool.false_eq_true, if_false] at h
-    split at h
-    · rename_i hp
-      cases h
-      exact ⟨hl, hp⟩
-    · cases h
-  · simp [hl] at h
-
 /-! ## TTL expiry at the two dequeue points -/
 
 /-- (worker dequeue, `get_next_non_expired_job`) whatever the worker's queue holds, the job handed on is not
@@ -562,8 +500,6 @@ end C13
 #print axioms C13.stopped_workers_hold_nothing_partial
 #print axioms C13.queued_jobs_wait_behind_work_partial
 #print axioms C13.replacement_gets_next_queued_job
-#print axioms C13.ttl_survives_the_wire
-#print axioms C13.ttl_of_bytes_spec
 #print axioms C13.worker_dequeue_skips_expired
 #print axioms C13.factory_dequeue_skips_expired
 #print axioms C13.never_panics
